@@ -1238,7 +1238,12 @@ impl<'a> Gen<'a> {
                         _ => "arith",
                     });
                     let a = self.gen_expr(&Ty::Int, scope, d);
-                    let b = self.gen_expr(&Ty::Int, scope, d);
+                    let b = if self.r.chance(1, 4) {
+                        self.hit("arith-literal-right");
+                        E::Int(self.gen_int())
+                    } else {
+                        self.gen_expr(&Ty::Int, scope, d)
+                    };
                     E::Bin(op, bx(a), bx(b))
                 }
                 6 => {
@@ -1264,11 +1269,26 @@ impl<'a> Gen<'a> {
             Ty::Bool => match self.r.below(12) {
                 0 | 1 => {
                     self.hit("and");
-                    E::And(bx(self.gen_expr(&Ty::Bool, scope, d)), bx(self.gen_expr(&Ty::Bool, scope, d)))
+                    let a = self.gen_expr(&Ty::Bool, scope, d);
+                    // a literal on the right: the code generator reorders operands of "symmetric" operators
+                    let b = if self.r.chance(1, 4) {
+                        self.hit("and-literal-right");
+                        E::Bool(self.r.chance(1, 2))
+                    } else {
+                        self.gen_expr(&Ty::Bool, scope, d)
+                    };
+                    E::And(bx(a), bx(b))
                 }
                 2 | 3 => {
                     self.hit("or");
-                    E::Or(bx(self.gen_expr(&Ty::Bool, scope, d)), bx(self.gen_expr(&Ty::Bool, scope, d)))
+                    let a = self.gen_expr(&Ty::Bool, scope, d);
+                    let b = if self.r.chance(1, 4) {
+                        self.hit("or-literal-right");
+                        E::Bool(self.r.chance(1, 2))
+                    } else {
+                        self.gen_expr(&Ty::Bool, scope, d)
+                    };
+                    E::Or(bx(a), bx(b))
                 }
                 4 => {
                     self.hit("not");
